@@ -116,6 +116,9 @@ e("hall", S_I, lambda p, t: p.all(t.p, t.q, t.a > 0))
 e("hany3", S_I, lambda p, t: p.any(t.p, t.q, t.a.is_null()))
 # clip
 e("clip", S_I, lambda p, t: t.a.clip(0, 5))
+e("clip_null_lo", S_I, lambda p, t: t.a.clip(None, 2))  # a null bound is skipped like in max / min (F69)
+e("clip_null_hi", S_I, lambda p, t: t.a.clip(-1, None))
+e("clip_null_both_expr", S_I, lambda p, t: (t.a + t.b).clip(None, None))
 e("clip_neg", S_I, lambda p, t: t.a.clip(-2, 2))
 e("clip_expr", S_I, lambda p, t: (t.a - t.b).clip(-1, 1))
 # case
